@@ -484,6 +484,12 @@ func c09WrongOvs(r *Run, db *DB, t TableSpec) {
 		r.Violation("wrong-ovs-type", cs, implErr, "error", true, "a value of the wrong type crashed the mapper", "")
 		return
 	}
+	if implErr == "" {
+		// every value generated here differs from the column's type in its shape or in the type of its
+		// atoms: none of them may be converted
+		r.Violation("wrong-ovs-type", cs, "accepted", "an error", true, "a value whose type does not match the column's type was converted instead of rejected", "")
+		return
+	}
 	if implErr != modelErr {
 		r.Violation("wrong-ovs-type", cs, "impl:"+implErr, "model:"+modelErr, false, "implementation and model disagree on whether a wrong-typed value is rejected", "")
 		return
